@@ -155,12 +155,26 @@ def json_classes(doc):
     return cls
 
 
-def _validate(path):
+def _validate(path, via_command=False):
     """(verdict, report).  verdict True only if the validator says valid;
-    raising or exiting counts as not valid."""
-    from biom.cli.table_validator import _validate_table
+    raising or exiting non-zero counts as not valid."""
+    from biom.cli.table_validator import _validate_table, validate_table
     buf = io.StringIO()
     try:
+        if via_command:
+            # the click command: verdict is the exit status and the last line
+            try:
+                with contextlib.redirect_stdout(buf):
+                    validate_table.callback(path, None)
+                code = 0
+            except SystemExit as e:
+                code = e.code
+            text = buf.getvalue()
+            said_valid = 'is a valid BIOM-formatted file' in text
+            if (code == 0) != said_valid:
+                return False, ['exit status %r but report %r'
+                               % (code, text[-200:])]
+            return code == 0, text.splitlines()
         with contextlib.redirect_stdout(buf):
             valid, report = _validate_table(path)
         return bool(valid), report
@@ -196,7 +210,7 @@ def _json_sweep(w, ev, slot, text, ref, thorough):
         cls = json_classes(doc)
         with open(path, 'w') as f:
             json.dump(doc, f)
-        verdict, report = _validate(path)
+        verdict, report = _validate(path, via_command=len(name) % 5 == 0)
         w.stats['fault.F4.json'] += 1
         w.case('c15.reject', 'json:' + name.split('+')[0].split(':')[0],
                None, classes=tuple(sorted(cls)), pair=len(plan) > 1)
@@ -446,7 +460,7 @@ def c15_validate(w, ev, slot):
         path = store.new_path(w, '.json.biom')
         with open(path, 'w') as f:
             f.write(text)
-        verdict, report = _validate(path)
+        verdict, report = _validate(path, via_command=bool(a & 4))
         os.unlink(path)
         w.case('c15.accept', 'json', slot)
         if not verdict:
@@ -460,7 +474,7 @@ def c15_validate(w, ev, slot):
             t.to_hdf5(f, 'sim-validate', compress=bool(a & 2),
                       creation_date=datetime.datetime(2020, 2, 3, 4, 5, 6,
                                                       (a >> 2) % 2 * 123456))
-        verdict, report = _validate(path)
+        verdict, report = _validate(path, via_command=bool(a & 4))
         w.case('c15.accept', 'hdf5', slot)
         if not verdict:
             os.unlink(path)
